@@ -872,9 +872,11 @@ def c18(ctx):
             stress.append(dict(ops=ops, decoded=dec, workers=8, iters=iters))
     events += race_run(ctx, stress)
     rejects = judge(ctx, "Trace_C18", events, per_shard=3000)
+    # the COSE_Key life cycle: Signer() / Verifier() / MarshalCBOR / signing and verifying with a key are read-only on the Key (KeyModel K_ReadOnly)
+    events, rejects = with_key_model(ctx, "C18", events, rejects)
     return report(ctx, events, rejects,
                   nontrivial=lambda e: True,
-                  key=lambda e: json.dumps([e["op"], e.get("sched"), e.get("progs"), e.get("decoded"), e.get("ops"), e.get("steps")]),
+                  key=lambda e: json.dumps(e["acts"]) if "acts" in e else json.dumps([e["op"], e.get("sched"), e.get("progs"), e.get("decoded"), e.get("ops"), e.get("steps")]),
                   rule="TLC explores every interleaving of the thread state machine (Call / callback / Resume) for 2 threads x 2 calls and 3 threads x 1 call over "
                        "read-only operations on shared values with a shared verifier and Sign on own messages with a shared signer, checking ReadOnly, RaceFree "
                        "and SeqEquivalent on the specification, and emits every complete schedule (quick tier: a seeded sample); each schedule is replayed with "
